@@ -8,6 +8,7 @@
 #include <cstring>
 #include <iostream>
 #include <limits>
+#include <locale>
 #include <memory>
 #include <random>
 #include <sstream>
@@ -153,6 +154,38 @@ int main()
         const auto oe(draw(*e, n));
         (void)eq_before;
         std::cout << "OK " << of << " | " << oe << " | " << hex_of_bytes(rest) << std::endl;
+      }
+    }
+    else if (c == "reloadfmt" && w.size() == 6)
+    {
+      // save and reload through ONE stream whose locale groups digits (a custom numpunct facet: no dependence on the
+      // locales installed on the machine): reloadfmt <seed> <k> <other> <n> <variant>
+      struct grouping : std::numpunct<char>
+      {
+        grouping(char s, std::string g) : sep(s), grp(std::move(g)) {}
+        char do_thousands_sep() const override { return sep; }
+        std::string do_grouping() const override { return grp; }
+        char sep;
+        std::string grp;
+      };
+      const int variant(std::stoi(w[5]));
+      auto e(std::make_unique<eng>(u64(w[1])));
+      for (unsigned long i(0), k(std::stoul(w[2])); i < k; ++i) (void)(*e)();
+      std::stringstream ss;
+      ss.imbue(std::locale(std::locale::classic(),
+                           variant == 0 ? new grouping(',', "\3") : variant == 1 ? new grouping('.', "\3\2") : new grouping('\'', "\1")));
+      ss << *e;
+      const std::string txt(ss.str());
+      auto f(std::make_unique<eng>(u64(w[3])));
+      ss >> *f;
+      if (ss.fail())
+        std::cout << "FAIL | - | " << hex_of_bytes(txt) << std::endl;
+      else
+      {
+        const unsigned n(std::stoul(w[4]));
+        const auto of(draw(*f, n));
+        const auto oe(draw(*e, n));
+        std::cout << "OK " << of << " | " << oe << " | " << hex_of_bytes(txt) << std::endl;
       }
     }
     else if (c == "readu" && w.size() == 2)
